@@ -87,6 +87,24 @@ def _mkmod(tag, ptype):
 OA = _mkmod("a", "int")
 OB = _mkmod("b", "Decimal")
 ''', ["OA", "OB", "List[OB]"], ("OA", "OB")),
+    # a TypedDict / NamedTuple of ANOTHER module whose member annotation is a nested string reference: the name is resolved in the
+    # module that owns the annotation, not in the module of the dataclass that uses it (which has an Item of its own)
+    "forwardref_other_module": ('''
+import sys as _sys
+def _mkfr():
+    m = types.ModuleType("mvc_c17_fr_" + __name__.replace(".", "_"))
+    _sys.modules[m.__name__] = m
+    exec("from dataclasses import dataclass\\nfrom typing import List, Dict\\nfrom typing_extensions import TypedDict\\nfrom mashumaro import DataClassDictMixin\\n"
+         "@dataclass\\nclass Item(DataClassDictMixin):\\n    v: int = 0\\n"
+         "class FTD(TypedDict):\\n    items: List['Item']\\n    one: Dict[str, 'Item']\\n", m.__dict__)
+    return m
+_FRM = _mkfr()
+FTD = _FRM.FTD
+FItem = _FRM.Item
+@dataclass
+class Item(DataClassDictMixin):
+    w: int = 7
+''', ["FTD", "List[FTD]"], None),
     "local_discriminated": ('''
 from mashumaro.types import Discriminator
 def _ld():
@@ -207,6 +225,10 @@ SAMPLES = {
     "other_module_discriminator": {
         "ODisc": ("{'kind': 'v1', 'a': 2}", "type(v) is OV1 and v.a == 2"),
         "List[ODisc]": ("[{'kind': 'v1', 'a': 2}]", "type(v[0]) is OV1"),
+    },
+    "forwardref_other_module": {
+        "FTD": ("{'items': [{'v': 1}], 'one': {'k': {'v': 2}}}", "type(v['items'][0]) is FItem and v['items'][0].v == 1 and type(v['one']['k']) is FItem and C(v).to_dict()['x'] == {'items': [{'v': 1}], 'one': {'k': {'v': 2}}}"),
+        "List[FTD]": ("[{'items': [{'v': 1}], 'one': {}}]", "type(v[0]['items'][0]) is FItem"),
     },
     "generic_with_local_arg": {
         "GBox[LocItem]": ("{'content': {'price': '7'}}", "type(v.content) is LocItem and v.content.price == 7"),
